@@ -577,8 +577,14 @@ pub fn run(cfg: &Cfg) -> i32 {
                 0
             }
             Err(m) => {
-                println!("VIOLATION property=C15 replay={path}\n  what: {m}");
-                1
+                let d = unhex(case["input_hex"].as_str().unwrap_or(""));
+                if known("C15", "header-sized-allocation") && crate::c18::huge_count(&d[..d.len().min(400)]) {
+                    println!("KNOWN-FINDING: property=C15 header-sized-allocation: {m}");
+                    0
+                } else {
+                    println!("VIOLATION property=C15 replay={path}\n  what: {m}");
+                    1
+                }
             }
         };
     }
